@@ -99,7 +99,7 @@ Proof.
   - (* Xor2: a ^ b  =  the 4-NAND network (C08_xor2) *)
     assert (Ha : okn env a) by assumption. assert (Hb : okn env b) by assumption.
     first3. rewrite (bin_ctx env r a b BXor eq_refl) by (first [assumption | discriminate | lia]). cbn [bop].
-    rewrite C08_xor2; [unfold xor2_spec; apply trunc_mod; lia | lia | destruct Hb; lia | exact (proj2 Ha) | exact (proj2 Hb)].
+    rewrite C08_xor2; [unfold xor2_spec; apply trunc_mod; lia | destruct Ha; lia | destruct Hb; lia | unfold mid_a; lia | exact (proj2 Ha) | exact (proj2 Hb)].
   - (* Nand2: ~(a & b)  =  Not(And2) with Mid of a's width (C08_nand2) *)
     assert (Ha : okn env a) by assumption. assert (Hb : okn env b) by assumption.
     first3. match goal with |- assign_value env ?l0 ?e0 = _ => rewrite (inl_nnary_sound env BAnd r a [b] eq_refl Ha (Forall_cons _ Hb (Forall_nil _)) ltac:(lia) l0 e0 eq_refl) end.
@@ -139,7 +139,7 @@ Proof.
   - (* Equal: (a == b) ? 1 : 0  =  Xor2 + BitsLSBF + Nor (C08_equal), equal operand widths *)
     assert (Ha : okn env a) by assumption. assert (Hb : okn env b) by assumption.
     first3. match goal with |- assign_value env ?l0 ?e0 = _ => rewrite (inl_equal_sound env r a b Ha Hb ltac:(lia) l0 e0 eq_refl) end.
-    replace (snd b) with (snd a) by lia. rewrite C08_equal; [reflexivity | destruct Ha; lia | exact (proj2 Ha) |].
+    replace (snd b) with (snd a) by lia. rewrite C08_equal; unfold eqw_a, mid_a; [reflexivity | destruct Ha; lia | destruct Ha; lia | destruct Ha; lia | lia | exact (proj2 Ha) |].
     destruct Hb as [Hwb Hvb]. unfold fits. replace (snd a) with (snd b) by lia. exact Hvb.
   - (* EqualConstant: (a == K) ? 1 : 0  =  Minterm over the bits of a (C08_equal_constant), 0 <= K < 2^w *)
     assert (Ha : okn env a) by assumption.
